@@ -349,9 +349,14 @@ func buildBig(c *pbt.C, variant int) (*View, error) {
 		spec.Fusions = append(spec.Fusions, sim.FusionSpec{Owner: sim.UserKey(0).Address, Beneficiary: sim.ExtraKey(i).Address, Amount: 2000,
 			Id: types.NewHash([]byte(fmt.Sprintf("extra-fusion-%d", i)))})
 	}
+	// plasma for the busy account from an owner without a key (nobody can cancel it)
+	var fuser types.Address
+	copy(fuser[:], types.NewHash([]byte("c18-fuser")).Bytes()[:20])
+	fuser[0] = 0
+	busy := sim.UserKey(0).Address
+	spec.Fusions = append(spec.Fusions, sim.FusionSpec{Owner: fuser, Beneficiary: busy, Amount: 5000, Id: types.NewHash([]byte("c18-busy-fusion"))})
 	h := newHistNoCleanup(c, spec, worldOpts())
 	h.Intents = sim.DefaultIntents()
-	busy := sim.UserKey(0).Address
 	var sink types.Address
 	copy(sink[:], types.NewHash([]byte(fmt.Sprintf("c18-sink-%d", variant))).Bytes()[:20])
 	sink[0] = 0
@@ -364,10 +369,10 @@ func buildBig(c *pbt.C, variant int) (*View, error) {
 		}
 		panic("no intent " + name)
 	}
-	momentums := 72 + 9*variant
+	momentums := 150 - 70*variant
 	for m := 0; m < momentums && !h.Dead; m++ {
 		// the busy account: one or two small sends per momentum, most of them to the sink
-		for k := 0; k < 1+m%2; k++ {
+		for k := 0; k < 2+m%2-variant; k++ {
 			to := sink
 			if (m+k)%5 == 4 {
 				to = h.Users[c.Pick("big.to", len(h.Users))]
@@ -376,8 +381,11 @@ func buildBig(c *pbt.C, variant int) (*View, error) {
 			if m%6 == 0 {
 				data = c.Bytes("big.data", 1, 24)
 			}
-			_, _ = h.Submit(&nom.AccountBlock{Address: busy, ToAddress: to, TokenStandard: types.ZnnTokenStandard,
+			_, err := h.Submit(&nom.AccountBlock{Address: busy, ToAddress: to, TokenStandard: types.ZnnTokenStandard,
 				Amount: big.NewInt(int64(1 + m*3 + k)), Data: data}, fmt.Sprintf("busy send %d.%d", m, k))
+			if err != nil && os.Getenv("C18_DEBUG") != "" {
+				fmt.Fprintf(os.Stderr, "busy send %d.%d: %v\n", m, k, err)
+			}
 		}
 		// scripted share: tokens, fusions, stakes, sentinels, projects early so that they age
 		switch {
